@@ -41,6 +41,9 @@ def run(ctx: Ctx) -> None:
     tableau.rule_rowops(ctx)
     tableau.rule_phase_combine(ctx)
     tableau.rule_measure_rowset(ctx)
+    tableau.rule_measure_indices(ctx)
+    from .c01 import rule_determinism_map
+    rule_determinism_map(ctx)
     tableau.rule_outcome_used(ctx)
     tableau.rule_basis_restored(ctx)
     tableau.rule_symplectic_form_dim(ctx)
@@ -76,6 +79,11 @@ def rule_wrappers(ctx: Ctx) -> None:
 
 
 KNOCKOUTS = [
+    Knockout("measurement-z-column-off-by-n", CLIFF, sub_once("        table[x_p, qubit_position + n_qubits] = 1\n", "        table[x_p, qubit_position] = 1\n"), "measure.indices", "column of the single 1"),
+    Knockout("measurement-destabilizer-row", CLIFF, sub_once("        table[x_p - n_qubits] = table[x_p]\n", "        table[x_p - n_qubits + 1] = table[x_p]\n"), "measure.indices", "destabilizer row"),
+    Knockout("measurement-stabilizer-search-strict", CLIFF, sub_once("        if non_zero_x[i] >= n_qubits:", "        if non_zero_x[i] > n_qubits:"), "measure.indices", "stabilizer row is searched"),
+    Knockout("measurement-scratch-adds-destabilizer", CLIFF, sub_once("                non_zero + n_qubits,\n", "                non_zero,\n"), "measure.indices", "scratch row"),
+    Knockout("measurement-forced-one-gives-zero", CLIFF, sub_once("        elif measurement_determinism == 1:\n            outcome = 1\n", "        elif measurement_determinism == 1:\n            outcome = 0\n"), "sibling.determinism-map", "z_measurement_gate"),
     Knockout("symplectic-form-sized-by-rows", "graphiq/backends/stabilizer/functions/utils.py", sub_once("    dim = int(matrix1.shape[1] / 2)\n    symplectic_p", "    dim = matrix1.shape[0]\n    symplectic_p"), "dim.symplectic-form", "binary_symplectic_product"),
     Knockout("measure-x-not-rotated-back", CLIFF, sub_once("    # rotate back: the gates act in place on the caller's tableau\n    hadamard_gate(stabilizer_state_new, qubit_position)\n", ""), "measure.basis-restored", "measure_x"),
     Knockout("measure-y-rotated-back-with-wrong-phase", CLIFF, sub_once("    phase_gate(new_tableau, qubit_position)\n    return outcome", "    phase_dagger_gate(new_tableau, qubit_position)\n    return outcome"), "measure.basis-restored", "measure_y"),
